@@ -326,17 +326,33 @@ fn main() {
     let from: u64 = a[3].parse().unwrap_or(0);
     let to: u64 = a[4].parse().unwrap_or(1);
     let mut stats = [0u64; 8];
-    if class <= 1 {
-        // injected panics are part of the workload: keep them off stderr
-        std::panic::set_hook(Box::new(|_| {}));
-    }
+    // Injected panics are part of the workload and are caught where they are injected. A panic
+    // that escapes a scenario is one of the harness's own expectations failing (an accessor that
+    // answers None, a join that fails): that is a finding about the library, reported like any other.
+    static LAST_PANIC: std::sync::Mutex<String> = std::sync::Mutex::new(String::new());
+    std::panic::set_hook(Box::new(|info| {
+        let msg = info.payload().downcast_ref::<&str>().map(|s| s.to_string()).or_else(|| info.payload().downcast_ref::<String>().cloned()).unwrap_or_default();
+        if !msg.starts_with("injected:") {
+            let loc = info.location().map(|l| format!("{}:{}", l.file(), l.line())).unwrap_or_default();
+            if let Ok(mut g) = LAST_PANIC.lock() {
+                *g = format!("{} at {}", msg, loc);
+            }
+        }
+    }));
     for i in from..to {
         println!("BEGIN\tmiri-c{:02}\t{}", class, i);
         let s = seed.wrapping_mul(0x9E37_79B9).wrapping_add(i.wrapping_mul(0x1_0000_0001));
-        if class <= 1 {
-            seq::scenario(s, class == 0, &mut stats);
-        } else {
-            scenario(class, s);
+        let r = std::panic::catch_unwind(std::panic::AssertUnwindSafe(|| {
+            if class <= 1 {
+                seq::scenario(s, class == 0, &mut stats);
+            } else {
+                scenario(class, s);
+            }
+        }));
+        if r.is_err() {
+            let what = LAST_PANIC.lock().map(|g| g.clone()).unwrap_or_default();
+            println!("VIOLATION-RECORD\tunexpected-panic\tscenario {} (class {}): {}", s, class, what.replace('\n', " "));
+            std::process::exit(3);
         }
     }
     if class <= 1 {
